@@ -1,4 +1,5 @@
 import UsualProofs.C09.SafeMulProofs
+import Usual.C09.World
 import UsualProofs.C09.PoolMem
 import UsualProofs.C09.PoolWrap
 import UsualProofs.C09.MemPoolProofs
@@ -203,6 +204,22 @@ theorem pool_realloc_preserves {s : HState} {ptr olen len q n : Nat} {pa : Optio
     (∀ b ∈ s.live, b.ptr ≠ ptr → ∀ i, i < b.len → copy m q ptr n (b.ptr + i) = m (b.ptr + i)) := by
   simp only [OpOk, cxReallocReq, hlen, if_false] at hok
   exact realloc_mem m (reach_inv h).1 hb hok.2 hr
+
+/-- `cx_free(cx, NULL)` is a no-op: the filter `if (ptr)` in `cx_free` (usual/cxalloc.c) keeps NULL
+    away from every allocator's `c_free`, so the pool and the whole stack of allocators driven
+    through `cx_free` are left exactly as they were. -/
+theorem cx_free_null_noop (p : Pool) (fuel : Nat) (w : World) (slot : Nat) :
+    cxFree p none = p ∧ cxFreeOptW fuel w slot none = w := ⟨rfl, rfl⟩
+
+/-- Why the filter matters: handed NULL unfiltered, `pool_free` compares `last_ptr != ptr` with
+    both NULL, takes the "free the last block" branch and sets `seg_pos = NULL`: in the state right
+    after `cx_new_pool` this breaks `seg_start ≤ seg_pos` (so `pool_inv` fails and the next
+    allocation is handed memory below the segment). -/
+theorem pool_free_null_unfiltered_counterexample :
+    ∃ p0, newPool 1024 8 (some 4096) = some p0 ∧
+      ∀ g ∈ (freeUnfilteredNull p0).segs, g.pos < g.start := by
+  refine ⟨_, rfl, ?_⟩
+  decide
 
 /-- `cx_destroy(pool)` hands back to the parent exactly the regions the pool obtained from it
     (the area of `cx_new_pool` and one region per segment; for `cx_new_pool_from_area` the area
